@@ -1,4 +1,5 @@
 import SqlObjVerif.Lemmas.Inherit
+import SqlObjVerif.Lemmas.InheritXCreateChain
 /-!
 # C15 — inheritance hierarchies stay consistent across their tables
 
@@ -462,4 +463,152 @@ example : ¬ NoOrphan T0 (destroyG false true T0 db0 3 1) := by
     have := (inv.down 1 1 r 3 hr hrc).2
     revert this; decide
 
+end SqlObjVerif.Inherit
+
+namespace SqlObjVerif.Inherit
+open SqlObjVerif.PyInh
+
+/-! ## The hand model of the `InheritableSQLObject` methods IS the translated source
+
+`destroySelfX`, `deleteManyX`, `deleteByX`, `createX` (`Model/InheritX.lean`) RUN the PyInherit programs
+`vlib/extractors/pyinherit.py` translated from `sqlobject/inheritance/__init__.py` on this run, against the interface
+stated in the header of `Model/InheritX.lean` (what `SQLObject.destroySelf / _create`, the parent class's
+constructor, `select` / `selectBy` do).  Each `…_level` theorem: one level of the class tree, the call to the
+neighbouring level being the hand model's function there; each `…_eq_model` theorem: the translated method calling
+ITSELF along the class chain (any depth) is the hand model's function.  A semantic edit of these methods changes the
+translated programs and breaks these proofs. -/
+
+/-- `destroySelf`, one level: parent level first (the hand model's guarded destroy there), then the own row -/
+theorem C15_translated_destroySelf_level (X : Ctx) (h : X.T.WF) (w : XW) (k c i : Nat)
+    (hpar : w.par k c i = parVal X.T k c i) :
+    destroySelfX X { noCalls with destroy := destroyModel X } w k c i = destroyModel X w k c i :=
+  destroySelfX_level_model h w k c i hpar
+
+/-- `destroySelf` along the whole `_parent` chain = the hand model's `destroyGuarded` (DELETEs root first, a
+    `cascade=False` restriction of a level refuses there, what was deleted before stays deleted), on the instance's
+    own connection -/
+theorem C15_translated_destroySelf_eq_model (X : Ctx) (h : X.T.WF) (w : XW) (k c i : Nat)
+    (hpar : ∀ a, a ∈ X.T.anc c → w.par k a i = parVal X.T k a i) :
+    destroySelfC X w k c i =
+      if (destroyGuarded X.T (w.cur k) c i X.blocked).2 = .ok
+      then .ret (w.setCur k (destroyGuarded X.T (w.cur k) c i X.blocked).1) .none
+      else .exc (w.setCur k (destroyGuarded X.T (w.cur k) c i X.blocked).1) ⟨.integrity, 0⟩ :=
+  destroySelfC_eq h w k c i hpar
+
+/-- … and without a restriction on the chain it is `destroyInst` -/
+theorem C15_translated_destroySelf_eq_destroyInst (X : Ctx) (h : X.T.WF) (w : XW) (k c i : Nat)
+    (hpar : ∀ a, a ∈ X.T.anc c → w.par k a i = parVal X.T k a i) (hb : ∀ a, a ∈ X.T.anc c → X.blocked a = false) :
+    destroySelfC X w k c i = .ret (w.setCur k (destroyInst X.T (w.cur k) c i)) .none := by
+  rw [destroySelfC_eq h w k c i hpar]
+  exact destroyModel_unblocked X w k c i hb
+
+/-- `cls.deleteMany(where, connection=k)` with the translated `destroySelf` for every selected object = the hand model's
+    `deleteMany` on the tables of connection `k`; `X.ids` is what `select` returned (any order) -/
+theorem C15_translated_deleteMany_eq_model (X : Ctx) (h : X.T.WF) (hb : ∀ a, X.blocked a = false) (w : XW) (k c : Nat)
+    (wh : PVal) (hwh : wh = noDefault ∨ wh = .none ∨ wh = .ref 5 0)
+    (hids : ∀ j, j ∈ X.ids ↔ ∃ m, selectRow X.T (w.cur k) c (filterOf X wh) j = some (.ok m))
+    (hpar : ∀ j m, selectRow X.T (w.cur k) c (filterOf X wh) j = some (.ok m) →
+      ∀ a, a ∈ X.T.anc m → w.par k a j = parVal X.T k a j) :
+    deleteManyX X { noCalls with destroy := destroySelfC X } w c wh (.conn k) =
+      .ret (w.setCur k (deleteMany X.T (w.cur k) c (filterOf X wh))) .none :=
+  deleteManyX_eq X _ w k c wh hwh hids (fun w' j m hw hm => bulk_hC_chain h hb k w w' j m hw (hpar j m hm))
+
+theorem C15_translated_deleteMany_level (X : Ctx) (hb : ∀ a, X.blocked a = false) (w : XW) (k c : Nat)
+    (wh : PVal) (hwh : wh = noDefault ∨ wh = .none ∨ wh = .ref 5 0)
+    (hids : ∀ j, j ∈ X.ids ↔ ∃ m, selectRow X.T (w.cur k) c (filterOf X wh) j = some (.ok m)) :
+    deleteManyX X { noCalls with destroy := destroyModel X } w c wh (.conn k) =
+      .ret (w.setCur k (deleteMany X.T (w.cur k) c (filterOf X wh))) .none :=
+  deleteManyX_eq X _ w k c wh hwh hids (fun w' j m _ _ => bulk_hC_model X hb k w' j m)
+
+/-- the same for `cls.deleteBy(connection=k, **kw)` -/
+theorem C15_translated_deleteBy_eq_model (X : Ctx) (h : X.T.WF) (hb : ∀ a, X.blocked a = false) (w : XW) (k c : Nat)
+    (hids : ∀ j, j ∈ X.ids ↔ ∃ m, selectByRow X.T (w.cur k) c X.kvs j = some (.ok m))
+    (hpar : ∀ j m, selectByRow X.T (w.cur k) c X.kvs j = some (.ok m) →
+      ∀ a, a ∈ X.T.anc m → w.par k a j = parVal X.T k a j) :
+    deleteByX X { noCalls with destroy := destroySelfC X } w c (.conn k) =
+      .ret (w.setCur k (deleteBy X.T (w.cur k) c X.kvs)) .none :=
+  deleteByX_eq X _ w k c hids (fun w' j m hw hm => bulk_hC_chain h hb k w w' j m hw (hpar j m hm))
+
+theorem C15_translated_deleteBy_level (X : Ctx) (hb : ∀ a, X.blocked a = false) (w : XW) (k c : Nat)
+    (hids : ∀ j, j ∈ X.ids ↔ ∃ m, selectByRow X.T (w.cur k) c X.kvs j = some (.ok m)) :
+    deleteByX X { noCalls with destroy := destroyModel X } w c (.conn k) =
+      .ret (w.setCur k (deleteBy X.T (w.cur k) c X.kvs)) .none :=
+  deleteByX_eq X _ w k c hids (fun w' j m _ _ => bulk_hC_model X hb k w' j m)
+
+/-- `_create`, one level below a parent class `p`: the constructor of `p` is the hand model's `createSpec` of the
+    parent chain, the clean-up's `destroySelf` the hand model's `destroyInst` -/
+theorem C15_translated_create_level (X : Ctx) (h : X.T.WF) (hvals : ∀ a j, X.T.ncols a ≤ j → X.vals a j = 0)
+    (w : XW) (k a p : Nat) (tag : Option Nat) (hp : X.T.parent a = some p) :
+    createX X { noCalls with
+        construct := fun w k p d => constructRes X k p (createSpec X k (X.T.anc p) (tagOf d) w),
+        destroy := fun w k p i => .ret (w.setCur k (destroyInst X.T (w.cur k) p i)) .none }
+      w k a .none (kwOf X (X.T.anc a) tag) = createCall (createSpec X k (X.T.anc a) tag w) := by
+  apply createX_child h _ w k a p tag hp hvals _ (Or.inl rfl)
+  · have : tagOf (kwOf X (X.T.anc p) (some a)) = some a := by
+      simp only [kwOf, tagOf, vdGet_pairsOf, List.find?_append]
+      have h0 : ((X.T.anc p).flatMap (ownKw X)).find? (fun e => e.1 == PyInh.Val.str "childName") = none := by
+        rw [List.find?_eq_none]
+        intro e he
+        simp only [List.mem_flatMap] at he
+        obtain ⟨a', _, he⟩ := he
+        obtain ⟨j, _, rfl⟩ := (mem_ownKw X a' e).1 he
+        simp
+      simp [h0, tagEntry, cname]
+    simp only [this]
+  · intro _ w1 _; rfl
+
+/-- `_create` along the whole class chain (the translated method calling itself through the parent class's
+    constructor), no INSERT failing: on the instance's connection `k` the tables are the hand model's `create`
+    (`insertUp`: parent chain first, each level tagged with the subclass), every other connection is untouched -/
+theorem C15_translated_create_eq_model (X : Ctx) (h : X.T.WF) (hb : ∀ a, X.blocked a = false)
+    (hvals : ∀ a j, X.T.ncols a ≤ j → X.vals a j = 0) (w : XW) (k c : Nat)
+    (hfresh : ∀ a, a ∈ X.T.anc c → w.par k a X.nid = .none) (hok : ∀ a, a ∈ X.T.anc c → X.failAt a = none) :
+    ∃ w', createC X w k c .none (kwOf X (X.T.anc c) none) = .ret w' .none ∧
+      w'.cur k = insertUp Extracted.createTagsParent X.nid X.vals (X.T.anc c) none (w.cur k) ∧
+      (∀ k', k' ≠ k → w'.cur k' = w.cur k') ∧
+      (¬ (X.T.anc c).any (fun a => (w.cur k).has a X.nid) → (w'.cur k, Out.ok) = create X.T (w.cur k) c X.nid X.vals) := by
+  obtain ⟨h1, h2, h3⟩ := createSpec_success X k (X.T.anc c) none w hok
+  refine ⟨(createSpec X k (X.T.anc c) none w).1, ?_, h2, h3, ?_⟩
+  · unfold createC
+    rw [createN_eq h hb hvals k w (c + 1) c (by omega) none _ (Or.inl rfl) hfresh]
+    simp [createCall, h1]
+  · intro hno
+    simp only [create, hno, h2]
+    simp
+
+/-- the own INSERT of the created class raises `e` — ANY exception, `KeyboardInterrupt` included — outside a
+    transaction with autocommit: the parent chain the constructor had inserted is destroyed again, `e` is re-raised -/
+theorem C15_translated_create_cleanup_eq_model (X : Ctx) (h : X.T.WF) (hb : ∀ a, X.blocked a = false)
+    (hvals : ∀ a j, X.T.ncols a ≤ j → X.vals a j = 0) (w : XW) (k c p : Nat) (e : Exc)
+    (hp : X.T.parent c = some p)
+    (hfresh : ∀ a, a ∈ X.T.anc c → w.par k a X.nid = .none)
+    (hfc : X.failAt c = some e) (hok : ∀ a, a ∈ X.T.anc p → X.failAt a = none)
+    (hclean : (!X.isTx k && X.autoCommit k) = true) :
+    ∃ w', createC X w k c .none (kwOf X (X.T.anc c) none) = .exc w' e ∧
+      w'.cur k = destroyInst X.T (insertUp Extracted.createTagsParent X.nid X.vals (X.T.anc p) (some c) (w.cur k)) p X.nid := by
+  obtain ⟨h1, h2⟩ := createSpec_leaf_fails h k c p none w e hp hfc hok hclean
+  refine ⟨(createSpec X k (X.T.anc c) none w).1, ?_, h2⟩
+  unfold createC
+  rw [createN_eq h hb hvals k w (c + 1) c (by omega) none _ (Or.inl rfl) hfresh]
+  simp [createCall, h1]
+
+/-! ### Non-vacuity: the translated programs run (no `stuck`) on the three-level hierarchy `T0`, connection 1
+holding `db0`, connection 0 empty -/
+
+example : (match destroySelfC X0 w0 1 3 1 with
+    | .ret w _ => [0, 1, 3].map (fun c => ((w.cur 1).has c 1, (w.cur 1).has c 2))
+    | _ => []) = [(false, true), (false, true), (false, false)] := by decide
+/-- `K1.deleteMany(K0.col0 >= 0, connection=1)`: the K3 and the K5 at every level, not the K2 -/
+example : (match deleteManyX X0 { noCalls with destroy := destroySelfC X0 } w0 1 (.ref 5 0) (.conn 1) with
+    | .ret w _ => [0, 1, 2, 3, 5].map (fun c => ((w.cur 1).has c 1, (w.cur 1).has c 2, (w.cur 1).has c 3))
+    | _ => []) = [(false, false, true), (false, false, false), (false, false, true), (false, false, false),
+                  (false, false, false)] := by decide
+/-- a K3 created on connection 1: rows 9 at the three levels there, tagged towards K3; nothing on connection 0 -/
+example : (match createC X0 w1 1 3 .none (kwOf X0 (T0.anc 3) none) with
+    | .ret w _ => [0, 1, 3].map (fun c => (((w.cur 1 c 9).map (·.child)), (w.cur 0).has c 9))
+    | _ => []) = [(some (some 1), false), (some (some 3), false), (some none, false)] := by decide +kernel
+/-- a K4 whose own INSERT is interrupted (`KeyboardInterrupt`): the K0 / K1 rows are removed again -/
+example : (match createC X0 w1 1 4 .none (kwOf X0 (T0.anc 4) none) with
+    | .exc w e => (e.cls, [0, 1, 4].map (fun c => (w.cur 1).has c 9))
+    | _ => (.exception, [])) = (.baseOnly, [false, false, false]) := by decide +kernel
 end SqlObjVerif.Inherit
